@@ -103,8 +103,13 @@ class SimulationAlgorithm(BaseSimulationAlgorithm):
     def __init__(self, settings: AlgorithmSettings):
         super().__init__(settings)
         self.features = settings.parameters["features"]
-        self.visit_type = settings.parameters["visit_parameters"]["visit_type"]
-        self._set_param_study(settings.parameters["visit_parameters"])
+        visit_parameters = settings.parameters["visit_parameters"]
+        if not isinstance(visit_parameters, dict) or "visit_type" not in visit_parameters:
+            raise LeaspyAlgoInputError(
+                "The `visit_parameters` should be a dictionary with a 'visit_type' key."
+            )
+        self.visit_type = visit_parameters["visit_type"]
+        self._set_param_study(visit_parameters)
         self._validate_algo_parameters()
 
     def _check_features(self):
@@ -169,6 +174,7 @@ class SimulationAlgorithm(BaseSimulationAlgorithm):
                 type_errors.append(
                     f"Parameter '{param}': Expected type {type_names}, given {type(value).__name__}"
                 )
+                continue
             if param == "patient_number" and value <= 0:
                 value_errors.append(
                     "Patient number (patient_number) need to be a positive integer"
@@ -184,7 +190,7 @@ class SimulationAlgorithm(BaseSimulationAlgorithm):
                     "Parameter 'min_spacing_between_visits': Expected type int or float, "
                     f"given {type(value).__name__}"
                 )
-            if value < 0:
+            elif value < 0:
                 value_errors.append(
                     "Parameter 'min_spacing_between_visits' cannot be negative"
                 )
@@ -247,6 +253,8 @@ class SimulationAlgorithm(BaseSimulationAlgorithm):
 
             if df["TIME"].isnull().any():
                 raise LeaspyAlgoInputError("Dataframe has null value in column TIME")
+
+            self.param_study["patient_number"] = df.groupby("ID").size().shape[0]
 
         if self.visit_type == VisitType.RANDOM:
             if (
@@ -312,30 +320,28 @@ class SimulationAlgorithm(BaseSimulationAlgorithm):
             This method updates the `param_study` attribute of the instance in-place.
         """
 
+        # only keep the known parameters that were provided: the missing or
+        # invalid ones are reported by `_validate_algo_parameters`
+        self.param_study = {}
         if self.visit_type == VisitType.DATAFRAME:
-            patient_number = dict_param["df_visits"].groupby("ID").size().shape[0]
-
-            self.param_study = {
-                "patient_number": patient_number,
-                "df_visits": dict_param["df_visits"],
-            }
-
+            known_parameters = ["df_visits"]
         elif self.visit_type == VisitType.RANDOM:
-            self.param_study = {
-                "patient_number": dict_param["patient_number"],
-                "first_visit_mean": dict_param["first_visit_mean"],
-                "first_visit_std": dict_param["first_visit_std"],
-                "time_follow_up_mean": dict_param["time_follow_up_mean"],
-                "time_follow_up_std": dict_param["time_follow_up_std"],
-                "distance_visit_mean": dict_param["distance_visit_mean"],
-                "distance_visit_std": dict_param["distance_visit_std"],
-            }
-
-            # Add optional spacing param if provided
-            if "min_spacing_between_visits" in dict_param:
-                self.param_study["min_spacing_between_visits"] = dict_param[
-                    "min_spacing_between_visits"
-                ]
+            known_parameters = [
+                "patient_number",
+                "first_visit_mean",
+                "first_visit_std",
+                "time_follow_up_mean",
+                "time_follow_up_std",
+                "distance_visit_mean",
+                "distance_visit_std",
+                # optional spacing param
+                "min_spacing_between_visits",
+            ]
+        else:
+            known_parameters = []
+        for param in known_parameters:
+            if param in dict_param:
+                self.param_study[param] = dict_param[param]
 
     def _sample_individual_parameters_from_model_parameters(
         self, model: McmcSaemCompatibleModel
@@ -632,7 +638,8 @@ class SimulationAlgorithm(BaseSimulationAlgorithm):
             3: 0.001,  # 0.001 years ~ 0.365 days (~1 day) - User will never want precision above 1 day.
         }
 
-        rounding_precision = None
+        # finest supported precision when visits may be closer than that
+        rounding_precision = max(rounding_options)
         for precision, val in sorted(rounding_options.items()):
             if val <= min_spacing_between_visits:
                 rounding_precision = precision
